@@ -89,6 +89,12 @@ def ref_pwl(K, order, l1, l2, cyclic):
 def _lat_reg(p, l1=None, l2=None):
   from tensorflow_lattice.python import lattice_layer as LL
   cls = LL.LaplacianRegularizer if p['kind'] == 'laplacian' else LL.TorsionRegularizer
+  if p.get('via') == 'layer':
+    # the regularizer object a Lattice layer builds from the documented ('name', l1, l2) spelling (with its own sizes)
+    layer = LL.Lattice(lattice_sizes=list(p['sizes']), units=p['units'],
+                       kernel_regularizer=(p['kind'], p['l1'] if l1 is None else l1, p['l2'] if l2 is None else l2))
+    (rg,) = layer.kernel_regularizer
+    return rg
   return cls(lattice_sizes=list(p['sizes']), l1=p['l1'] if l1 is None else l1, l2=p['l2'] if l2 is None else l2)
 
 
@@ -169,7 +175,20 @@ def case_lattice(**p):
 def _pwl_reg(p, l1=None, l2=None):
   from tensorflow_lattice.python import pwl_calibration_layer as PL
   cls = dict(laplacian=PL.LaplacianRegularizer, hessian=PL.HessianRegularizer, wrinkle=PL.WrinkleRegularizer)[p['kind']]
-  return cls(l1=p['l1'] if l1 is None else l1, l2=p['l2'] if l2 is None else l2, is_cyclic=p['cyclic'])
+  l1 = p['l1'] if l1 is None else l1
+  l2 = p['l2'] if l2 is None else l2
+  via = p.get('via')
+  if via:
+    # the regularizer objects a PWLCalibration layer builds from the documented ('name', l1, l2) spelling: they must carry
+    # the layer's own is_cyclic
+    spec = {'layer': (p['kind'], l1, l2), 'layerupper': (p['kind'].capitalize(), l1, l2),
+            'layerlist': [(p['kind'], l1, 0.0), (p['kind'], 0.0, l2)]}[via]
+    layer = PL.PWLCalibration(input_keypoints=np.linspace(0.0, 1.0, p['rows']), units=p['units'], is_cyclic=p['cyclic'],
+                              kernel_regularizer=spec)
+    regs = list(layer.kernel_regularizer)
+    assert len(regs) == (2 if via == 'layerlist' else 1), regs
+    return lambda k: sum(r(k) for r in regs)
+  return cls(l1=l1, l2=l2, is_cyclic=p['cyclic'])
 
 
 def case_pwl(**p):
@@ -258,6 +277,7 @@ def cases(tier, seed):
     add('case_lattice', kind=kind, sizes=[2, 3, 2], units=1, l1=[0.0, 0.5, 2.0], l2=0.0, timeout=200, required=kind == 'laplacian')
     add('case_lattice', kind=kind, sizes=[2, 2, 3], units=2, l1=[0.0, 0.5, 2.0], l2=[0.0, 0.0, 1.0], timeout=200, required=kind == 'laplacian')
     add('case_lattice', kind=kind, sizes=[3, 2, 2, 2], units=1, l1=0.0, l2=[1.0, 0.0, 0.75, 0.5], timeout=300, required=False)
+    add('case_lattice', kind=kind, sizes=[2, 3], units=2, l1=sc[0], l2=[0.5, 2.0], via='layer')
   for kind in ('laplacian', 'hessian', 'wrinkle'):
     for rows in (2, 3, 4, 5, 6):
       for cyclic in (False, True):
@@ -266,6 +286,10 @@ def cases(tier, seed):
         add('case_pwl', kind=kind, rows=rows, units=1 + rows % 2, cyclic=cyclic, l1=0.5, l2=0.25)
     add('case_pwl', kind=kind, rows=4, units=2, cyclic=False, l1=0.0, l2=2.0)
     add('case_pwl', kind=kind, rows=4, units=1, cyclic=True, l1=1.5, l2=0.0)
+    # the same regularizers as the layer builds them from the ('name', l1, l2) spelling (single tuple, list of tuples)
+    add('case_pwl', kind=kind, rows=4, units=2, cyclic=True, l1=0.5, l2=0.25, via='layer')
+    add('case_pwl', kind=kind, rows=5, units=1, cyclic=True, l1=0.5, l2=0.25, via='layerlist')
+    add('case_pwl', kind=kind, rows=4, units=1, cyclic=False, l1=0.5, l2=0.25, via='layerupper')
   if tier == 'thorough':
     for kind in ('laplacian', 'torsion'):
       add('case_lattice', kind=kind, sizes=[3, 2, 4], units=1, l1=[0.5, 0.25, 1.0], l2=[1.0, 0.0, 0.25], timeout=900, required=False, cap=2000)
